@@ -3,7 +3,7 @@ import store_hist as H
 
 ID = "C03"
 THEOREMS = ["C03_getPayload", "C03_getPayload_prefix", "C03_getPayloadRef", "C03_reads_pure",
-            "C03_start_pos", "C03_position"]
+            "C03_start_pos", "C03_position", "C03_model_meets_spec", "C03_step_refines", "C03_content_is_map"]
 COQ_IMPORTS = "From FT Require Import Model.Base Model.Obs Model.Store Model.StoreCheck."
 CHECK_VO = ["Model/StoreCheck.v"]
 CHECKER = "c03_checker"
@@ -18,7 +18,8 @@ TRUSTED = ["Coq 8.16.1 kernel (coqc; coqchk in the thorough tier)",
            "hand-written model coq/Model/Store.v (getPayload, getPayloadRef/_create_payload/_createDefault, getPosition(Ref), "
            "_coord2pos with start_pos), tied to /repo by the per-step differential correspondence of this run",
            "oracle c03_holds (replay of the history on an association list) evaluated on the implementation's observations; "
-           "that the model's own observation satisfies it is checked per case at run time (verdict bit 4), not proved",
+           "that the model's own observation satisfies it for every well-formed case and every history is proved "
+           "(C03_model_meets_spec, Proofs/StoreMapCheck.v) and additionally re-checked per case at run time (verdict bit 4)",
            "harness/store_hist.py, harness/check.py"]
 ASSUMPTIONS = ["tensors (owned trees) of depth 1-3; points are full points or proper prefixes; handles are written through immediately "
                "(assignment <<= v and in-place += v), which is faithful because no operation of this family ever removes an element",
